@@ -363,6 +363,7 @@ func (fr *Frame) chanSend(st *State, ch, x *Term, chType types.Type, cond *Term,
 	sq := ex.get(st, seq, ss)
 	n := ex.get(st, nc, ns)
 	cnt := Select(n, ch)
+	ex.assume(st, Le(IntLit(0), cnt)) // ghost counters count events
 	ex.set(st, seq, Ite(cond, Store(sq, ch, Store(Select(sq, ch), cnt, x)), sq))
 	ex.set(st, nc, Ite(cond, Store(n, ch, Add(cnt, IntLit(1))), n))
 }
